@@ -20,6 +20,7 @@ def grids_for(rng, n):
     for i in range(n):
         gs.append(codec.gen_grid(rng, rng.choice(['2.0', '3.0', '3.0']), depth=rng.choice([0, 1, 2, 3])))
     gs += codec.zone_sweep_grids(rng)        # one date-time in every mapped zone
+    gs += codec.reserved_tag_grids()         # dict values whose tags are the names of the JSON grid encoding (meta, cols, rows)
     return gs
 
 
